@@ -78,7 +78,7 @@ var routines = []*routine{
 	{name: "adam", families: scalarFamilies, variants: []string{"0.05", "0.3"}, hookKind: "gy", iterBy: "eval", consOpt: true, hookOpt: true, smallCap: 3, bigCap: 300, epsDiv: 3, run: runAdam},
 	{name: "adam.gradient", families: scalarFamilies, variants: []string{""}, hookKind: "g", iterBy: "eval", consOpt: true, hookOpt: true, smallCap: 3, bigCap: 200, epsDiv: 3, run: runAdamGradient},
 	{name: "saga", families: []string{"quad"}, variants: []string{"dense1", "dense2", "sparse1", "sparse2"}, hookKind: "args", iterBy: "eval", hookOpt: true, smallCap: 3, bigCap: 300, epsDiv: 1, run: runSaga},
-	{name: "lineSearch", families: scalarFamilies, variants: []string{"1", "0.1", "10", "1/short", "0.1/short"}, hookKind: "gy", iterBy: "eval", consOpt: true, hookOpt: true, smallCap: 3, bigCap: 20, epsDiv: 1, run: runLineSearch},
+	{name: "lineSearch", families: append(append([]string{}, scalarFamilies...), "line1d"), variants: []string{"1", "0.1", "10", "1/short", "0.1/short", "poly"}, hookKind: "gy", iterBy: "eval", consOpt: true, hookOpt: true, smallCap: 3, bigCap: 20, epsDiv: 1, run: runLineSearch},
 }
 
 func mkVec(x []float64, rng *rand.Rand) Vector {
@@ -530,8 +530,11 @@ func runLineSearch(pr *problem, variant string, o combo, maxit int, rng *rand.Ra
 	alpha1, scale := lineVariant(variant)
 	// one-dimensional restriction along the steepest-descent direction at the start point ("short": the
 	// direction is scaled by 1/128, so that the first trial steps are far too short and the curvature
-	// condition decides)
-	_, g0 := valGrad(pr.f, pr.x0)
+	// condition decides); "poly": the case itself is a one-dimensional polynomial with its own first step
+	var g0 []float64
+	if variant != "poly" {
+		_, g0 = valGrad(pr.f, pr.x0)
+	}
 	d := make([]float64, len(g0))
 	for i := range g0 {
 		d[i] = -g0[i] * scale
@@ -549,6 +552,10 @@ func runLineSearch(pr *problem, variant string, o combo, maxit int, rng *rand.Ra
 			x[i] = add(cst(pr.x0[i]), mul(cst(d[i]), alpha))
 		}
 		return pr.f(x)
+	}
+	if variant == "poly" {
+		phi = pr.c.poly1d()
+		alpha1 = pr.c.Alpha1.f()
 	}
 	wrapped := func(alpha ConstScalar) (MagicScalar, error) {
 		s, err := phi(alpha)
